@@ -89,6 +89,22 @@ def bridge(kind, repo, build, coqdir):
     return res
 
 
+def coqchk(kind, build, coqdir):
+    """independent re-check (coqchk) of the compiled bridge of `kind` and everything it depends on -> (ok, summary)"""
+    cls, gmod, bmod = BRIDGES[kind]
+    gen = os.path.join(build, "gen")
+    try:
+        r = subprocess.run(["coqchk", "-o", "-silent", "-Q", coqdir, "Capp", "-Q", gen, "CappGen", "CappGen." + bmod],
+                           capture_output=True, text=True, timeout=2400)
+    except subprocess.TimeoutExpired:
+        return False, "coqchk timed out"
+    out = r.stdout + r.stderr
+    summary = out[out.find("CONTEXT SUMMARY"):][:1500]
+    ok = r.returncode == 0 and "* Axioms: <none>" in summary and "type-in-type: <none>" in summary and \
+        "unsafe (co)fixpoints: <none>" in summary and "positivity is assumed: <none>" in summary
+    return ok, ("ok: no axioms, no type-in-type, no unsafe fixpoints, no assumed positivity" if ok else out[-1500:])
+
+
 if __name__ == "__main__":
     repo = os.environ.get("VERIF_REPO", "/repo")
     build = os.environ.get("VERIF_BUILD", os.path.join(ROOT, "build"))
